@@ -1494,6 +1494,9 @@ func buildFromStringProto(src protoreflect.FieldDescriptor, ext protoFieldExtens
 				ForeignKey: psmKeyExt.ForeignKey,
 			}
 		}
+		if psmKeyExt.TenantType != nil {
+			ee.TenantKey = psmKeyExt.TenantType
+		}
 		keyField.Entity = ee
 	}
 
